@@ -119,11 +119,11 @@ func GetConsumableStorePathMetadata(path string) (ConsumableStorePathMetadata, e
 	} else {
 		info.Type = ConsumableStorePathTypeFileList
 		info.BundleID = flMatch[1]
-		index, err := strconv.Atoi(flMatch[2])
+		index, err := strconv.ParseUint(flMatch[2], 10, 64)
 		if err != nil {
 			return ConsumableStorePathMetadata{}, err
 		}
-		info.Index = uint64(index)
+		info.Index = index
 	}
 	return info, nil
 }
